@@ -262,6 +262,17 @@ func (sc *pageRankStrategyCalculator) GetStrategies(perSizeClassStatsMap map[uin
 		strategies[i].Probability = probability
 		probabilitiesSum += probability
 	}
+	if probabilitiesSum > 1 {
+		// The restored probabilities were not computed for this
+		// list of size classes. Scale them down, so that the
+		// first entry does not become negative. A starting
+		// vector with negative entries may cause probabilities
+		// outside [0.0, 1.0] to be returned.
+		for i := 1; i < n; i++ {
+			strategies[i].Probability /= probabilitiesSum
+		}
+		probabilitiesSum = 1
+	}
 	strategies[0].Probability = 1.0 - probabilitiesSum
 
 	// Perform power iteration to compute the eigenvector of
